@@ -161,7 +161,7 @@ def contracts():
                                     pairs_has(a["comments"].info["id"], lit("/*"), lit("*/"))),
                              z3.Or(Step(a, r).appended(), Step(a, r).appended(lit("*/"))))),
              ])] + multi_errors(lambda a: a["comments"].info["id"]),
-        loops={0: LoopSpec()}, props=("C04",)))
+        props=("C04",)))
 
     cparams = dict(step, prev_char="optchar", next_char="optchar", c_info="cinfo")
     mp = lambda a: tid("c_info.multi_comments")    # noqa: E731
